@@ -3,6 +3,8 @@ import PySMT.Proofs.C10AIG
 import PySMT.Proofs.C10Partition
 import PySMT.Proofs.C10SelfSub
 import PySMT.Proofs.C10Times
+import PySMT.Proofs.C10PrenexMain
+import PySMT.Proofs.C10Propagate
 /-!
 # C10 — normal forms and Boolean quantifier elimination: property theorems (obligations)
 
@@ -93,5 +95,133 @@ theorem times_equiv (t : Term) (hwf : t.wf = true) (I : Interp) (hI : I.WF) :
 /-- … and is well-formed of the same sort -/
 theorem times_wf (t : Term) (hwf : t.wf = true) :
     (timesDistr t).wf = true ∧ (timesDistr t).typeOf = t.typeOf := (times_spec t hwf).1
+
+/-! ## prenex normal form -/
+
+/-- the result (when the walk returns one) is a quantifier prefix over a quantifier-free matrix,
+for every input whose quantifiers occur in Boolean positions only — with or without renaming -/
+theorem prenex_shape (fresh : Nat → String) (t r : Term) (hq : quantInBoolPos t = true)
+    (h : prenex fresh t = some r) : isPrenex r = true := Rewritings.prenex_shape fresh t r hq h
+
+/-- the full statement of the equivalence (every supply of fresh names that avoids the symbols of
+the input): **not proved** — covered by the correspondence run and the search only -/
+def prenex_equiv_full_statement : Prop :=
+  ∀ (fresh : Nat → String) (t r : Term), t.wf = true → t.typeOf = some .bool →
+    (∀ n, ∀ τ, Sym.var (fresh n) τ ∉ t.fv) → (∀ n m, fresh n = fresh m → n = m) →
+    prenex fresh t = some r → ∀ I : Interp, I.WF → eval I r = eval I t
+
+/-- `_partial`: proved for the runs in which no bound variable has to be renamed (`noRename`: the
+supply counter is untouched, i.e. no bound variable clashes with a variable reserved in an enclosing
+conjunction / disjunction) and binder lists without repeated variables (`nodupBinders`).  Missing: the
+alpha-renaming step (`mergeBlocks` with a non-empty clash set), which needs the renaming lemma for
+arbitrary sorts and freshness invariants of the supply. -/
+theorem prenex_equiv_partial (fresh : Nat → String) (t r : Term) (hwf : t.wf = true) (hty : t.typeOf = some .bool)
+    (hnd : nodupBinders t = true) (hnr : noRename fresh t = true) (h : prenex fresh t = some r)
+    (I : Interp) (hI : I.WF) : eval I r = eval I t :=
+  prenex_equiv_noRename fresh t r hwf hty hnd hnr h I hI
+
+/-! ## top-level propagation -/
+
+/-- the full statement for `propagate_toplevel(f, do_simplify=False)` (every formula, binders
+included). It is **false** for the real code and for the model alike when the representative of a class
+is bound by a binder of the formula (`y = x ∧ ∀x. x ≤ y` becomes `… ∀x. x ≤ x …`: known finding F51),
+so it is not a theorem; the search reports F51 as a known finding. -/
+def propagate_equiv_full_statement : Prop :=
+  ∀ (rank : Term → Int) (t r : Term), t.wf = true → t.typeOf = some .bool →
+    propagate rank t = some r → ∀ I : Interp, I.WF → eval I r = eval I t
+
+/-- `_partial`: proved for quantifier-free formulas (no binder, hence no capture), for every ranking
+of the symbols (`rank` = the node ids the disjoint set compares) and including the early `False` on
+two different constants in one class. Missing: formulas with binders none of which binds a symbol of a
+top-level definition (needs the substitution lemma below binders). `do_simplify=True` composes this
+with the simplifier, which is the subject of C01. -/
+theorem propagate_equiv_partial (rank : Term → Int) (t r : Term) (hwf : t.wf = true)
+    (hty : t.typeOf = some .bool) (hqf : t.isQF = true) (h : propagate rank t = some r)
+    (I : Interp) (hI : I.WF) : eval I r = eval I t :=
+  propagate_equiv_qf rank t r hwf hty hqf h I hI
+
+/-! ## non-vacuity: the hypotheses are satisfiable by non-trivial formulas and interpretations -/
+section Examples
+
+private def p : Sym := Sym.var "p" .bool
+private def q : Sym := Sym.var "q" .bool
+private def b : Sym := Sym.var "b" .bool
+private def x : Sym := Sym.var "x" .int
+/-- `(∀ b. b ∨ p) ∧ ¬ite(p, q, x ≤ 1)` -/
+private def t0 : Term :=
+  .mkAnd [.mkForall [b] (.mkOr [.sym b, .sym p]),
+          .mkNot (.mkIte (.sym p) (.sym q) (.node .le [.sym x, .int 1] .none))]
+
+local macro "term_eval" : tactic => `(tactic| (
+  simp only [Term.wf, Term.typeOf, boolQuants, nodupBinders, nodupB, quantInBoolPos,
+    Term.isQF, Term.subterms, Op.isQuantifier, Term.op,
+    Term.mkForall, Term.mkAnd, Term.mkOr, Term.mkNot, Term.mkIte, Term.sym, Term.int, Sym.var, List.map, List.all,
+    List.flatten, List.append, t0, p, q, b, x] <;>
+  decide))
+
+example : t0.wf = true ∧ t0.typeOf = some .bool := ⟨by term_eval, by term_eval⟩
+example : boolQuants t0 = true ∧ nodupBinders t0 = true ∧ quantInBoolPos t0 = true :=
+  ⟨by term_eval, by term_eval, by term_eval⟩
+
+/-- an interpretation that is well-formed and has an exact Boolean domain -/
+example : ∃ I : Interp, I.WF ∧ BoolExact I :=
+  ⟨{ sym := fun s => s.ret.defaultVal, fn := fun f _ => f.ret.defaultVal,
+     dom := fun t => if t = .bool then [.b true, .b false] else [t.defaultVal],
+     div0r := fun _ => 0, div0i := fun _ => 0 },
+   by
+    have hdef : ∀ t : Ty, t.defaultVal.hasSort t = true := by
+      intro t
+      induction t with
+      | bool | int | real | str => rfl
+      | bv w => simp [Ty.defaultVal, Val.hasSort, Nat.two_pow_pos]
+      | array i e _ ihe => simp [Ty.defaultVal, Val.hasSort, ihe]
+      | custom n => simp [Ty.defaultVal, Val.hasSort]
+    refine ⟨⟨fun s => hdef _, fun f _ => hdef _, fun t => by simp only; split <;> simp, fun t v hv => ?_⟩, ?_⟩
+    · simp only at hv
+      split at hv
+      · next h => subst h; simp at hv; rcases hv with rfl | rfl <;> rfl
+      · simp at hv; subst hv; exact hdef t
+    · simp [BoolExact]⟩
+
+/-- the repaired F18 behaviour on the model: the negation is pushed into the branches of the `ite` -/
+example : nnf (.mkNot (.mkIte (.sym p) (.sym q) (.sym b))) =
+    .node .and [.node .or [.node .not [.sym p] .none, .node .not [.sym q] .none] .none,
+                .node .or [.sym p, .node .not [.sym b] .none] .none] .none := by
+  simp [nnf, nnfP, mkAnd, mkOr, Term.mkNot, Term.mkIte, Term.sym]
+
+/-- `∃b. ¬b` by self-substitution is `¬¬⊤`, i.e. `⊤` after the constructor's double-negation rule -/
+example : selfSub (.mkExists [b] (.mkNot (.sym b))) = Term.tt := by
+  simp [selfSub, selfSubVars, selfSubStep, substT.eq_def, lookupT, bodyMap, rebuild, mkNot, Term.mkExists, Term.mkNot,
+    Term.sym, Term.tt, b, Sym.var]
+
+/-- `(∀ b. b ∨ p) ∧ q` is prenexed without drawing a fresh symbol, and the walk returns a result -/
+private def t1 : Term := .mkAnd [.mkForall [b] (.mkOr [.sym b, .sym p]), .sym q]
+
+example : noRename (fun n => s!"%F{n}") t1 = true := by
+  simp [noRename, prenexW, prenexL, prenexNode, allSome, conjDisj, mergeArgs, mergeBlocks, prenexQuant, dedupSyms,
+    boundOf, mkOr, Term.fv, t1, Term.mkAnd, Term.mkForall, Term.mkOr, Term.sym, p, q, b, Sym.var]
+
+example : (prenex (fun n => s!"%F{n}") t1).isSome = true := by
+  simp [prenex, prenexW, prenexL, prenexNode, allSome, conjDisj, mergeArgs, mergeBlocks, prenexQuant, dedupSyms,
+    boundOf, mkOr, Term.fv, t1, Term.mkAnd, Term.mkForall, Term.mkOr, Term.sym, p, q, b, Sym.var]
+
+private def y : Sym := Sym.var "y" .int
+
+/-- `x = 1 ∧ x ≤ y` : the definition is propagated and kept -/
+private def t2 : Term := .mkAnd [.mkEq (.sym x) (.int 1), .node .le [.sym x, .sym y] .none]
+
+example : propagate (fun _ => 0) t2 =
+    some (.node .and [.node .and [.mkEq (.int 1) (.int 1), .node .le [.int 1, .sym y] .none] .none,
+                      .mkEq (.sym x) (.int 1)] .none) := by
+  simp [propagate, buildLeader, conjPartition, conjLeaves, dedup, isDefinition, isSymbol, isConstant, Term.op,
+    Op.isConstant, dsAdd, Leader.ensure, Leader.get, lookupT, compareRank, substT.eq_def, bodyMap, rebuild,
+    mkAnd, t2, Term.mkAnd, Term.mkEq, Term.sym, Term.int, x, y, Sym.var]
+
+/-- `(x + 1) * y` is distributed -/
+example : timesDistr (.node .times [.node .plus [.sym x, .int 1] .none, .sym y] .none) =
+    .node .plus [.node .times [.sym x, .sym y] .none, .node .times [.int 1, .sym y] .none] .none := by
+  simp [timesDistr, walkTimes, walkPlus, summands, cartesian, mkPlus, mkTimes, isPlus, rebuild, Term.sym, Term.int]
+
+end Examples
 
 end PySMT.C10
